@@ -24,7 +24,7 @@ int64_t  rng_range(rng_t *r, int64_t lo, int64_t hi); /* inclusive */
 int      rng_chance(rng_t *r, unsigned permille);
 
 /* ------------------------------------------------------------------ plan */
-#define PLAN_MAX_KV     20
+#define PLAN_MAX_KV     32
 #define PLAN_MAX_OPS    400
 #define PLAN_MAX_FAULTS 6
 #define PLAN_KEYLEN     16
@@ -197,6 +197,13 @@ int   sim_qwrite_fails(void);            /* failed message-queue writes issued b
 int   sim_qwrite_fail_errno(void);
 void *sim_fiber_tls(int fiber, int key);
 int   sim_decisions_taken(const short **out);
+
+/* simulated network for connect(): port -> outcome */
+enum { SIM_NET_NONE = 0, SIM_NET_ACCEPT, SIM_NET_REFUSE, SIM_NET_BLACKHOLE, SIM_NET_IMMEDIATE_OK, SIM_NET_IMMEDIATE_REFUSE };
+int   sim_net_endpoint(int port, int mode, uint64_t delay_ns);
+int   sim_net_open_sockets(void);
+int   sim_net_conn_count(void);
+extern void (*sim_on_connect_hook)(int port, int mode, uint64_t now);
 
 /* the code-under-test's debug_break (raise(SIGTRAP)) lands here */
 int   sim_raise(int sig);
